@@ -32,8 +32,14 @@ def run_ob(ob, tier, seed):
     if ob["engine"] == "kani":
         return run_kani_ob(ob, tier, seed)
     if ob["engine"] == "mir":
-        from vk.mirsmt import driver
-        return driver.run_obligation(ob, tier, seed)
+        import subprocess
+        p = subprocess.run(["python3-vt", "-m", "vk.mirsmt.driver"], cwd=VERIF, input=json.dumps({"ob": ob, "tier": tier, "seed": seed}).encode(),
+                           stdout=subprocess.PIPE, stderr=subprocess.PIPE, timeout=ob["cap_s"][0 if tier == "quick" else 1] + 600)
+        out = p.stdout.decode(errors="replace")
+        if "@@RESULT@@" not in out:
+            return {"engine": "mir", "verdict": "inconclusive", "wall_s": 0,
+                    "reason": "worker crashed (rc %s): %s" % (p.returncode, p.stderr.decode(errors="replace")[-300:])}
+        return json.loads(out.split("@@RESULT@@", 1)[1])
     raise ValueError(ob["engine"])
 
 
@@ -62,6 +68,11 @@ def main(argv):
     for ob in obs:
         if ob["engine"] == "kani" and (ob["crate"], ob.get("rustflags")) not in warmed:
             warmed.add((ob["crate"], ob.get("rustflags")))
+    if any(ob["engine"] == "mir" for ob in obs):
+        from vk.mirsmt import driver
+        tprep = time.time()
+        driver.prepare()
+        print("  MIR dumps regenerated from /repo and native probe rebuilt in %.0fs" % (time.time() - tprep), flush=True)
     with cf.ThreadPoolExecutor(max_workers=workers) as ex:
         futs = {ex.submit(run_ob, ob, tier, seed): ob for ob in obs}
         for f in cf.as_completed(futs):
